@@ -35,6 +35,9 @@ def _parse(src: str) -> ast.AST:
     return m
 
 
+_REDUCTIONS = ("min", "max", "sum", "mean", "argmax", "argmin", "any", "all", "cumsum", "prod")
+
+
 class _Canon(ast.NodeTransformer):
     """value-preserving spellings brought to one form"""
 
@@ -64,6 +67,20 @@ class _Canon(ast.NodeTransformer):
 
     def visit_Expr(self, n: ast.Expr):
         self.generic_visit(n)
+        return n
+
+    def visit_AnnAssign(self, n: ast.AnnAssign):
+        self.generic_visit(n)
+        if n.value is not None:
+            return ast.Assign(targets=[n.target], value=n.value)  # the annotation says nothing at run time
+        return n
+
+    def visit_Call(self, n: ast.Call):
+        self.generic_visit(n)
+        # np.min(x, axis=0) and x.min(axis=0) are the same reduction
+        if isinstance(n.func, ast.Attribute) and isinstance(n.func.value, ast.Name) and n.func.value.id in ("np", "numpy") \
+                and n.func.attr in _REDUCTIONS and n.args and not isinstance(n.args[0], (ast.List, ast.Tuple, ast.ListComp, ast.GeneratorExp, ast.Starred)):
+            return ast.Call(func=ast.Attribute(value=n.args[0], attr=n.func.attr, ctx=ast.Load()), args=n.args[1:], keywords=n.keywords)
         return n
 
 
